@@ -130,7 +130,11 @@ def is_equivalent(lhs: Node | None, rhs: Node | None) -> bool:
             return True
 
         case NameExpr() as lhs, NameExpr() as rhs:
-            return unmangle_name(lhs.fullname) == unmangle_name(rhs.fullname)
+            # Names that Mypy did not resolve (for instance in code it considers
+            # unreachable) have no fullname: compare their spelling instead.
+            return unmangle_name(lhs.fullname or lhs.name) == unmangle_name(
+                rhs.fullname or rhs.name
+            )
 
         case MemberExpr() as lhs, MemberExpr() as rhs:
             return (
